@@ -3,5 +3,6 @@ CONSTANTS
   MaxLen = 4
   FibMax = 20
   CountBig = 50000
-INVARIANTS KernelEq FirstIsLeast SwapLaw NonOverlapPerm RecLaw RecSanity Emit
+  Big = TRUE
+INVARIANTS KernelEq FirstIsLeast SwapLaw NonOverlapPerm RecLaw RecSanity InScope Emit
 CHECK_DEADLOCK FALSE
